@@ -55,6 +55,7 @@ Occ(d, v) == IF (d + v) % 2 = 0 THEN 2 ELSE 1
 (* page settings for the configs (cfg files cannot write records) *)
 P(size, from, desc) == [size |-> size, from |-> from, desc |-> desc]
 PagesOne   == { P(10, 0, FALSE) }
+PagesTwo   == { P(10, 0, FALSE), P(1, 1, TRUE) }
 PagesQuick == { P(10, 0, FALSE), P(1, 0, FALSE), P(1, 1, TRUE), P(0, 0, FALSE) }
 PagesFull  == { P(10, 0, FALSE), P(1, 0, FALSE), P(1, 1, TRUE), P(0, 0, FALSE), P(2, 1, FALSE), P(1, 2, TRUE) }
 
@@ -263,9 +264,14 @@ MergeLemma ==
 EnumInit ==
   /\ docs \in Corpora
   /\ page \in Pages
-  /\ pc = "done" /\ cur = 0 /\ todo = {}
+  /\ pc = "enum" /\ cur = 0 /\ todo = {}
   /\ tb = <<>> /\ nb = NewBuilder /\ db = NewBuilder
   /\ store = <<>> /\ seen = 0
-  /\ out = DeclOut(Matched)
-EnumSpec == EnumInit /\ [][UNCHANGED vars]_vars
+  /\ out = NoOut
+(* a step of its own so that TLC's workers compute the expectations in parallel *)
+EnumStep ==
+  /\ pc = "enum" /\ pc' = "done"
+  /\ out' = DeclOut(Matched)
+  /\ UNCHANGED <<docs, page, cur, todo, tb, nb, db, store, seen>>
+EnumSpec == EnumInit /\ [][EnumStep]_vars
 =============================================================================
